@@ -54,11 +54,12 @@ type Knobs struct {
 	PPrimary           float64
 	PDup               float64
 	PSlice             float64
+	PInitLookup        float64
 }
 
 func wireKnobs(r rng) Knobs {
 	k := Knobs{MinTypes: 2, MaxTypes: 5, MaxInstPerType: 3, MaxPoints: 3, PSatisfiable: 0.92,
-		PLazy: 0.2, PInit: 0.5, PEmbed: 0.2, PByName: 0.25, PFunc: 0.12, POptional: 0.25, PQual: 0.3, PPrimary: 0.2, PDup: 0.01, PSlice: 0.35}
+		PLazy: 0.2, PInit: 0.5, PEmbed: 0.2, PByName: 0.25, PFunc: 0.12, POptional: 0.25, PQual: 0.3, PPrimary: 0.2, PDup: 0.01, PSlice: 0.35, PInitLookup: 0.12}
 	// swarm: per program, switch some features off or up
 	if r.p(0.3) {
 		k.PLazy = 0
@@ -135,6 +136,8 @@ func substKnobs(r rng) Knobs {
 	k.PByName = 0.15
 	k.PFunc = 0
 	k.PLazy = 0.1
+	k.PInitLookup = 0.3
+	k.PInit = 0.8
 	return k
 }
 
@@ -217,6 +220,17 @@ func genGraph(r rng, seed uint64, id, family string, k Knobs) *sdl.Program {
 		}
 	}
 	repairSatisfiable(r, p, k)
+	// a share of the initialising components look another component up by name from inside
+	// Init / AfterPropertiesSet (cycles closed during initialization)
+	for _, i := range p.Instances {
+		t := p.TypeByName(i.Type)
+		if (t.Init || t.APS) && r.p(k.PInitLookup) && len(p.Instances) > 1 {
+			tgt := pick(r, p.Instances)
+			if tgt != i {
+				i.InitLookups = append(i.InitLookups, tgt.ID)
+			}
+		}
+	}
 	return p
 }
 
